@@ -313,6 +313,29 @@ func genCase(r *rand.Rand, bucket string) caseIn { //nolint:cyclop,gocognit
 				}
 			}
 			op.ErrN = []int{0, 0, 12, 40}[r.Intn(4)]
+		} else if id := uint8(c.TwccID); id != 0 && r.Intn(8) == 0 && //nolint:gosec
+			(!p.H.Ext || (p.H.Profile == 0xBEDE && id <= 14) || p.H.Profile == 0x1000) {
+			// a SUCCESSFUL read whose transport-wide sequence number lies where the decoys live
+			// (feedback reporting it is right; ids above 255 alias to uint8(id))
+			if !p.H.Ext {
+				p.H.Ext, p.H.Profile = true, 0xBEDE
+				if id > 14 {
+					p.H.Profile = 0x1000
+				}
+			}
+			keep := p.H.Exts[:0]
+			for _, e := range p.H.Exts {
+				if e.ID != id {
+					keep = append(keep, e)
+				}
+			}
+			n := decoyLo + r.Intn(1000)
+			tw := []byte{byte(n >> 8), byte(n)}
+			for k := r.Intn(3); k > 0; k-- {
+				tw = append(tw, byte(r.Intn(256)))
+			}
+			p.H.Exts = append(keep, extIn{ID: id, Payload: tw})
+			p.Legacy = 0
 		} else if bucket == "truncated" && r.Intn(3) == 0 {
 			op.Trunc = r.Intn(12 + 4*len(p.H.CSRC) + 8)
 		}
@@ -358,11 +381,24 @@ func genCase(r *rand.Rand, bucket string) caseIn { //nolint:cyclop,gocognit
 // chains with one responder above a tap and members that see its retransmissions
 // (flexfec / packetdump / stats / report sender / twcc header extension / rtpfb), NACKs for
 // packets that were written: differential replay of the injection theorem
-func genInject(r *rand.Rand) caseIn {
+//
+// refuse: a TWCC header-extension member at the bottom, FEC encoders above it, no RTX, and packets
+// the header-extension member cannot take (RFC 3550 generic extension): the retransmission is
+// refused below the encoders, which still send their repair packets
+func genInject(r *rand.Rand, refuse bool) caseIn {
 	in := caseIn{Cfg: genCfg(r), Note: "inject", Inject: true}
 	in.Cfg.Nack = true
 	if in.Cfg.TwccID > 14 {
 		in.Cfg.TwccID = 1 + r.Intn(14)
+	}
+	if refuse {
+		in.Note = "inject-refuse"
+		in.Cfg.RtxSSRC, in.Cfg.RtxPT = 0, 0
+		in.Cfg.FecSSRC, in.Cfg.FecPT = 888888, 118
+		if in.Cfg.TwccID == 0 {
+			in.Cfg.TwccID = 1 + r.Intn(14)
+		}
+		in.Members = append(in.Members, memberIn{Kind: 6}, memberIn{Kind: 13, Params: []int{1 + r.Intn(2), 1}})
 	}
 	c := in.Cfg
 	below := []int{11, 13, 9, 4, 6, 8, 15, 0, 13, 11}
@@ -393,7 +429,11 @@ func genInject(r *rand.Rand) caseIn {
 		seq = uint16(65533 + r.Intn(3)) //nolint:gosec
 	}
 	for i := 0; i < nw; i++ {
-		p := genPkt(r, c, seq, -1)
+		shape := -1
+		if refuse && i%2 == 0 {
+			shape = 7
+		}
+		p := genPkt(r, c, seq, shape)
 		p.H.SSRC = c.SSRC
 		seq++
 		w := writeIn{Pkt: p}
@@ -405,6 +445,10 @@ func genInject(r *rand.Rand) caseIn {
 	for i, n := 0, 1+r.Intn(2); i < n; i++ {
 		s := in.Writes[r.Intn(nw)].Pkt.H.Seq
 		in.Nacks = append(in.Nacks, []uint16{s, s + 1, s + 3})
+	}
+	if refuse {
+		s := in.Writes[0].Pkt.H.Seq
+		in.Nacks = append(in.Nacks, []uint16{s, s + 1, s + 2})
 	}
 
 	return in
@@ -496,7 +540,11 @@ func main() {
 		}
 		ni := o.Scale(150, 4000)
 		for i := 0; i < ni; i++ {
-			add(genInject(r), "inject")
+			if i%5 == 4 {
+				add(genInject(r, true), "inject", "inject-refuse")
+			} else {
+				add(genInject(r, false), "inject")
+			}
 		}
 		ns := o.Scale(12, 400)
 		for i := 0; i < ns; i++ {
@@ -615,6 +663,16 @@ func shapeBuckets(res *result) []string {
 	}
 	if len(res.iobs) > 0 {
 		put("inject:replayed")
+	}
+	for _, o := range res.iobs {
+		if len(o.calls) > 0 && o.refusedFEC {
+			put("inject:refused-below-fec-only")
+		}
+	}
+	for i, op := range in.Reads {
+		if op.Err == 0 && res.rops[i].tcc >= decoyLo && res.rops[i].tcc < decoyLo+1000 {
+			put("r:ok-read-tcc-in-decoy-range")
+		}
 	}
 	for _, o := range res.iobs {
 		if len(o.calls) > 1 {
